@@ -89,13 +89,13 @@ def lines_for(spec, rep, want=("geom", "pic", "scale", "layout", "size")):
                                                          ",".join(fr(v) for v in dots), ";".join(steps_str(l) for l in g["links"])), "geom-" + backend))
         if "size" in want:
             pad = o["labelPadding"]
-            items = ";".join("%s:%d" % (fr(dd["width"]), 1 if dd.get("text") else 0) for dd in spec["data"])
+            items = ";".join("%s:%d" % (fr(dd["width"]), 1 if TG.text_of(spec, dd) else 0) for dd in spec["data"])
             order = [nd.data.data for nd in tl.nodes]     # the emitters draw in node order
-            items = ";".join("%s:%d" % (fr(dd["width"]), 1 if dd.get("text") else 0) for dd in order)
+            items = ";".join("%s:%d" % (fr(dd["width"]), 1 if TG.text_of(spec, dd) else 0) for dd in order)
             if backend == "svg":
-                texts = ";".join("%s>%s" % (cps(dd.get("text") or None), cps(t)) for dd, t in zip(order, g["texts"]))
+                texts = ";".join("%s>%s" % (cps(TG.text_of(spec, dd) or None), cps(t)) for dd, t in zip(order, g["texts"]))
             else:   # TeX text is judged by C09/C19; here only presence
-                texts = ";".join("%s>%s" % (cps("x" if dd.get("text") else None), cps("x" if t is not None else None)) for dd, t in zip(order, g["texts"]))
+                texts = ";".join("%s>%s" % (cps("x" if TG.text_of(spec, dd) else None), cps("x" if t is not None else None)) for dd, t in zip(order, g["texts"]))
             out.append(("size|%s|%s|%s|%s|%s|%s|%s|%s" % (d, fr(pad["left"]), fr(pad["right"]), fr(pad["top"]), fr(pad["bottom"]), items, boxes_str(g["boxes"]), texts), "size-" + backend))
         if "layout" in want and backend == "svg":
             for r in captured[backend]:
